@@ -4,6 +4,17 @@ from .abbreviation.convert import AbbreviationAttribute, AbbreviationNode
 
 re_newline = re.compile(r'\r\n|\r|\n')
 
+def split_lines(text: str) -> list:
+    """
+    Splits given text by line breaks. Unlike `str.splitlines()`, only CR, LF and
+    CRLF separate lines: form feed, NEL, U+2028 etc. are ordinary characters
+    """
+    lines = re_newline.split(text)
+    if lines[-1] == '':
+        # Same as in `str.splitlines()`: trailing line break does not open a new line
+        lines.pop()
+    return lines
+
 expression_start = '{'
 expression_end = '}'
 
@@ -40,7 +51,7 @@ class OutputStream:
         # use `push_newline()` to maintain proper line/column state
         first = True
 
-        for line in value.splitlines():
+        for line in split_lines(value):
             if not first: self.push_newline(True)
             first = False
             self.push(line)
